@@ -940,4 +940,7 @@ def run(prog, rep, tier, snap):
     rep.rule("R11.7", "the reply names the task of the request: the oid is set for every answered verb", 3)
     rep.call(r11_7, prog, rep)
 
+    from . import c05
+    rep.rule("R05.10", "a run-as or owner name inherited from the calendar level is the event's own copy, not freed memory (shared with C05)", 3)
+    rep.call(c05.r05_10, prog, rep)
 READY = True
